@@ -10,7 +10,8 @@ LEVEL = "exploration"
 N_QUICK, N_THOROUGH = 60000, 2000000
 T_QUICK, T_THOROUGH = 70, 1500
 FLOORS = {"objects": 4000, "nested_views": 10000, "struct_attr_checks": 3000, "array_attr_checks": 5000,
-          "write_through_checks": 5000, "seen:ar2doD": 20, "seen:ar2dD": 50, "seen:ar3soS": 20, "seen:ref": 300}
+          "write_through_checks": 5000, "growths": 500, "rereads_after_growth": 1000,
+          "nplike_write_through_checks": 2000, "seen:ar2doD": 20, "seen:ar2dD": 50, "seen:ar3soS": 20, "seen:ref": 300}
 RULE = ("random type AST x value x placement (as C01); for the root and EVERY nested compound (fields, items, "
         "reference targets) a view T._from_buffer(buffer, offset) is compared with the node reached through the "
         "constructor handle: full model comparison of both, equality of _offset/_shape/_strides/_size/len, "
@@ -79,6 +80,14 @@ def run_case(w, rng):
             cm = compare(t, c.mv, obj)
             for path, kind, detail, sig in cm.errs:
                 viol(f"{name}:{kind}|{sig}", f"{path}: {detail}")
+        # 1b. the storage is replaced (growth) after both have been read once: both must keep reading the object
+        if rng.random() < 0.3 and not seen:
+            w.count("growths", env.force_growth())
+            for name, obj in (("handle", h), ("view", v)):
+                cm = compare(t, c.mv, obj)
+                w.count("rereads_after_growth")
+                for path, kind, detail, sig in cm.errs:
+                    viol(f"{name}-after-growth:{kind}|{sig}", f"{path}: {detail}")
         # 2. every nested compound: node via handle, node via view, fresh view at that offset
         for path, label, nt, nv in nodes(t, c.mv):
             if nt["k"] not in ("st", "ar") or nv is None:
@@ -119,6 +128,26 @@ def run_case(w, rng):
             ok = (got == newv) if nt["k"] == "str" else (isinstance(got, np.generic) and got.tobytes() == newv.tobytes())
             if not ok:
                 viol(f"write-through-not-visible|{nt['k']}", f"{l}: wrote {newv!r} via {'handle' if src is h else 'view'}, other side reads {got!r}")
+        # 4. numpy views of scalar arrays alias the object: a store through the view of one side is read through
+        #    item access on the other side
+        arrs = [(p, l, nt, nv) for p, l, nt, nv in nodes(t, c.mv) if nt["k"] == "ar" and nt["it"]["k"] == "sc" and nv is not None and nv.items]
+        rng.shuffle(arrs)
+        for p, l, nt, nv in arrs[:3]:
+            src, dst = (h, v) if rng.random() < 0.5 else (v, h)
+            idx = rng.choice(sorted(nv.items))
+            newv = c.vg.scalar(nt["it"]["t"])
+            try:
+                a = get_path(src, p) if p else src
+                npv = a.to_nplike() if rng.random() < 0.5 else a.to_nparray()
+                npv[idx] = newv
+                b = get_path(dst, p) if p else dst
+                got = b[idx if len(idx) > 1 else idx[0]]
+            except Exception as e:
+                viol(f"nplike-write-{exc_kind(e)}|{ar_sig(nt)}", f"{l}: {type(e).__name__}: {e}")
+                continue
+            w.count("nplike_write_through_checks")
+            if not (isinstance(got, np.generic) and got.tobytes() == newv.tobytes()):
+                viol(f"nplike-view-does-not-alias|{ar_sig(nt)}", f"{l}{list(idx)}: stored {newv!r} through to_nplike() of the {'handle' if src is h else 'view'}, other side reads {got!r}")
         w.case([shape_sig(t), env.kind, env.al, c.mode], sample=c.info if c.nontrivial and rng.random() < 0.003 else None,
                nontrivial=c.nontrivial)
     finally:
